@@ -168,7 +168,11 @@ def strtab_rule(F, rep, q, stream):
             rep.require(ok_shape and is_x is True, "shstrndx", q + ":xindex", w, "index = shdr[0].sh_link exactly when e_shstrndx == SHN_XINDEX",
                         "%s: string-table index taken from sh_link under the wrong condition, or buffer not [sh_offset, sh_offset+sh_size): %s" % (q, show(strs)[:300]))
             z = [f for f in flds if f[2] == "sh_link"]
-            base0 = all("0" in show(f[1]) for f in z)
+            def _is_hdr0(h):
+                if "[T]::first(" in show(h) and h[0] == "payload" and h[1][0] == "call" and h[1][1] == "[T]::first" and h[2] == "Some":
+                    return True      # `.first()`: element 0
+                return "0" in show(h)
+            base0 = all(_is_hdr0(f[1]) for f in z)
             rep.require(base0, "shstrndx", q + ":xindex-shdr0", w, "sh_link is read from section header 0", "%s reads sh_link from %s" % (q, [show(f[1])[:80] for f in z]))
             seen.add("xindex")
         elif idx_direct:
